@@ -1,7 +1,7 @@
 """C03 — determinism: the same program, seed and host calls give the same story, in every
 process, build profile and HashMap iteration order; the compiler's output is byte-identical."""
-import json, os, re
-import vlib, gen_tables
+import hashlib, json, os, re
+import vlib, gen_tables, compilerun, detcomp, gen_decls
 from props import common
 from props import native_common as nc
 
@@ -15,8 +15,17 @@ ASSUMPTIONS = [
     "tie to the code: each case is run twice in one process, in 4 fresh processes (fresh SipHash keys), in a debug and "
     "in a release build; all transcripts and canonical save dumps must be identical, and equal to the engine model's "
     "transcript (tools/engine.py) where the model supports the script",
-    "compiler clause: EXPLORATION ONLY (the compiler is not modelled): every source is compiled in 4 fresh processes "
-    "and the outputs must be byte-identical; by inspection its one HashMap (`consts`) is looked up, never iterated",
+    "compiler clause: EXPLORATION ONLY (the compiler is not modelled): every source (the runtime cases, corpus sources "
+    "incl. INCLUDE ones, tools/gen_decls.py programs that fill every table the compiler keeps — CONSTs defined from "
+    "each other several levels deep and declared in every order / place, VARs, LISTs, knots, stitches, labels, "
+    "EXTERNALs, functions, INCLUDEd files — and generated / corpus programs with such a CONST DAG put in front) is "
+    "compiled several times in ONE process (fresh map instances) in each of several fresh processes; all outcomes "
+    "must be byte-identical, differing outputs are played and the first differing transcript line is reported; the "
+    "story compiled in one process is run by the engine model and must give the transcript the implementation "
+    "gives for the same source compiled in another process",
+    "compiler source audit (tools/detcomp.py::iteration_sites, textual): the HashMaps/HashSets of compiler/src that "
+    "are ITERATED are exactly the two map-to-set / map-to-map copies in ALLOWED_ITERATION; any other site is reported "
+    "(no-failing-input-found) unless the differential run already produced a failing source",
     "the RNG is a deterministic function of its seed (rand 0.10 StdRng); seeds come only from story_seed / "
     "previous_random / the shuffle path hash (model: Data/Native.v seed_sum, shuffle_seed)",
 ]
@@ -99,18 +108,48 @@ def generated_cases(ctx, n):
         return out
     for k in range(n):
         try:
-            ast = gen_ink.gen_program(ctx.rng)
-            src = gen_ink.print_program(ast)
+            src, ast = gen_ink.gen_program(ctx.rng)
             script = gen_ink.gen_script(ctx.rng, ast, kind="explore", depth=2, max_paths=6)
         except Exception:
             continue
         case = dict(id=f"gen{k}", ink=src, seed=ctx.rng.randint(0, 99), kind="gen")
-        if isinstance(script, dict):
-            case.update(script)
-        else:
-            case["script"] = script
+        case.update(script)
         out.append(case)
     return out
+
+
+# compiler/src HashMap / HashSet iteration sites that are order-insensitive by construction (audited by hand):
+ALLOWED_ITERATION = {
+    "compiler/src/validator/context.rs:build:consts.keys": "keys copied into a BTreeSet",
+    "compiler/src/includes.rs:merge_stories:consume consts": "HashMap::extend of one map into another (keys of one "
+                                                             "map are distinct; a later file wins as a whole)",
+}
+
+# minimal witnesses of the class (always compiled; the generators below are the real quantifier)
+REGRESSION_SOURCES = {
+    "const-chain-3": "CONST A = 1\nCONST B = A + 1\nCONST C = B + 1\nVAR v = C\n{C} {v} {B}\n-> END\n",
+    "const-chain-5-reversed": "CONST E = D * 2\nCONST D = C + 1\nCONST C = B + 1\nCONST B = A + 1\nCONST A = 1\n"
+                              "VAR v = E\n{E} {D} {v}\n{E > 5: big|small}\n-> END\n",
+    "const-diamond-in-knot": "-> k\n=== k ===\nCONST top = l + r\nCONST l = base + 1\nCONST r = base * 3\n"
+                             "CONST base = 2\n* {top > 1} [go {top}] {l} {r}\n-> END\n",
+}
+
+
+def decl_programs(ctx, n):
+    """tools/gen_decls.py programs: (runtime cases for those without INCLUDE, compile sources for all)"""
+    cases, srcs = [], []
+    for k in range(n):
+        p = gen_decls.gen_program(ctx.rng) if k % 3 else gen_decls.gen_program(ctx.rng, n_includes=(0, 0))
+        base = None
+        if p["files"]:
+            base = detcomp.write_includes(p["files"], "c03_" + hashlib.sha1(p["src"].encode()).hexdigest()[:12])
+        srcs.append(dict(id=f"decl{k}", src=p["src"], files=p["files"], base=base, script=p["script"],
+                         explore=p["explore"], features=p["features"]))
+        if not p["files"]:
+            probes = [["GETVAR", v] for v in p["var_names"][:8]]      # initial values: VARs initialised from CONSTs
+            cases.append(dict(id=f"decl{k}", ink=p["src"], script=p["script"] + probes, explore=p["explore"],
+                              seed=ctx.rng.randint(0, 99), kind="decl"))
+    return cases, srcs
 
 
 def corpus_cases(ctx, n):
@@ -155,12 +194,70 @@ def run(ctx):
     exe_r = vlib.build_harness(release=True)
 
     q = ctx.quick()
+    exe_c = compilerun.build()
     cases = [list_program(ctx.rng, k) for k in range(24 if q else 300)]
     cases += [flow_case(ctx.rng, k) for k in range(6 if q else 40)]
     cases += generated_cases(ctx, 10 if q else 150)
     cases += corpus_cases(ctx, 10 if q else 121)
+    dcases, dsrcs = decl_programs(ctx, 36 if q else 400)
+    cases += dcases[:10 if q else 100]
+
+    findings, nondet = {}, set()
+
+    # ---- compiler first (exploration only): every source several times in one process, in several fresh processes
+    srcs = [dict(id="regression:" + k, src=v, explore={"depth": 2, "max_paths": 6}) for k, v in REGRESSION_SOURCES.items()]
+    srcs += dsrcs
+    srcs += [dict(id=str(c["id"]), src=c["ink"], script=[op for op in c.get("script", []) if op[0] != "SHOWSAVE"],
+                  explore=c.get("explore")) for c in cases if "ink" in c and c["kind"] != "decl"]
+    for c in corpus_cases(ctx, 12 if q else 135):
+        try:
+            src = open(c["ink_path"], encoding="utf-8").read()
+        except OSError:
+            continue
+        srcs.append(dict(id="src:" + c["id"], src=src, explore={"depth": 2, "max_paths": 6},
+                         base=os.path.dirname(c["ink_path"]) if common.has_include(src) else None))
+    # any program with a CONST DAG, VARs initialised from it and a line printing it put in front
+    plain = [x for x in srcs if not x["id"].startswith(("decl", "regression")) and not x.get("base")]
+    ctx.rng.shuffle(plain)
+    for x in plain[:12 if q else 150]:
+        wsrc, feat = gen_decls.with_const_dag(ctx.rng, x["src"])
+        srcs.append(dict(id="consts+" + x["id"], src=wsrc, script=x.get("script"), explore=x.get("explore"), features=feat))
+    reps, procs = (6, 3) if q else (12, 6)
+    mat = detcomp.matrix(srcs, exe_c, in_process=reps, processes=procs)
+    n_comp = len(srcs)
+    n_compiles = sum(v["count"] for m in mat for v in m.values()) * 2      # inkcompile compiles every case twice
+    cfind = detcomp.findings(srcs, mat, exe_d)
+    outcome_kinds = {}
+    for m in mat:
+        for k in m:
+            outcome_kinds[k.split(":")[0]] = outcome_kinds.get(k.split(":")[0], 0) + 1
+    bad_src = {f["source"] for f in cfind}
+    if cfind:
+        f = cfind[0]
+        try:
+            small = detcomp.shrink_lines(f, exe_c)
+            if small != f["source"]:
+                base = detcomp.write_includes(f["files"], "c03_shrunk") if f["files"] else None
+                s2 = [dict(src=small, files=f["files"], base=base, script=f["script"], explore=f["explore"])]
+                f2 = detcomp.findings(s2, detcomp.matrix(s2, exe_c, in_process=16, processes=3), exe_d)
+                if f2 and (f2[0]["played"] or not f["played"]):
+                    f = f2[0]
+        except Exception:
+            pass
+        findings["compiler-output-not-deterministic"] = dict(
+            source=f["source"], files=f["files"], script=f["script"], explore=f["explore"], outcomes=f["outcomes"],
+            counts=f["counts"], bytes=f["bytes"], played=f["played"], sources_affected=len(cfind),
+            affected_ids=[x["id"] for x in srcs if x["src"] in bad_src][:12],
+            affected_by_stream={st: sum(1 for x in srcs if x["src"] in bad_src and re.split(r"[:+\d]", x["id"])[0] == st)
+                                for st in ("regression", "decl", "consts", "gen", "list", "flow", "src")})
+
+    # ---- compiler source audit: which hash containers are iterated at all
+    audit = detcomp.iteration_sites()
+    new_sites = [x for x in audit["iterated"] if x not in ALLOWED_ITERATION]
 
     # ---- the implementation against itself: twice in one process, 4 fresh processes, debug + release
+    # (a source the compiler does not translate deterministically is the compiler's finding, not the runtime's)
+    cases = [c for c in cases if c.get("ink") not in bad_src]
     runs = []
     twice = [dict(strip(c), id=str(c["id"]) + "#1") for c in cases] + [dict(strip(c), id=str(c["id"]) + "#2") for c in cases]
     first = vlib.run_inkdrive(twice, exe_d, shards=1 if len(cases) < 40 else 4)
@@ -169,7 +266,6 @@ def run(ctx):
     for k in range(2):
         runs.append((f"debug/process-{k}", vlib.run_inkdrive([strip(c) for c in cases], exe_d)))
         runs.append((f"release/process-{k}", vlib.run_inkdrive([strip(c) for c in cases], exe_r)))
-    findings, nondet = {}, set()
     n_eval = 0
     for i, c in enumerate(cases):
         base_name, base = runs[0][0], transcript(runs[0][1][i])
@@ -183,29 +279,13 @@ def run(ctx):
                                     dict(case=strip(c), runs=[base_name, name], **diff))
                 break
 
-    # ---- compiler: byte-identical output in 4 fresh processes (exploration only)
-    srcs = [c for c in cases if "ink" in c]
-    for c in corpus_cases(ctx, 6 if q else 60):
-        try:
-            src = open(c["ink_path"], encoding="utf-8").read()
-        except OSError:
-            continue
-        if not common.has_include(src):
-            srcs.append(dict(id="src:" + c["id"], ink=src))
-    comp = [vlib.run_inkdrive([dict(id=str(c["id"]), ink=c["ink"], script=[], want_json=True) for c in srcs], exe_d,
-                              shards=2) for _ in range(4)]
-    n_comp = 0
-    for i, c in enumerate(srcs):
-        outs = {(r[i].get("compile"), r[i].get("json")) for r in comp}
-        n_comp += 1
-        if len(outs) > 1:
-            findings.setdefault("compiler-output-not-deterministic", dict(ink=c["ink"][:2000], outputs=len(outs)))
-
-    # ---- the engine model's transcript (only for cases the implementation runs deterministically)
-    mism, n_model, model_status = [], 0, {}
+    # ---- the engine model's transcript (only for cases the implementation runs deterministically).
+    # A gen_decls program goes to the model as the story ONE compiler process returned (the matrix above); the
+    # model's transcript must be the one the implementation produced from the source compiled in ANOTHER process.
+    mism, n_model, model_status, cross = [], 0, {}, 0
     try:
         import engine
-        mcases = []
+        mcases, other = [], {}
         for i, c in enumerate(cases):
             if i in nondet or c["kind"] not in ("list", "flow"):
                 continue
@@ -213,28 +293,58 @@ def run(ctx):
             mc["script"] = [op for op in mc.get("script", []) if op and op[0] not in engine.UNSUPPORTED]
             mcases.append(mc)
         mcases = mcases[:12 if q else 120]
+        by_src = {x["src"]: m for x, m in zip(srcs, mat)}
+        for i, c in enumerate(cases):
+            if c["kind"] != "decl" or i in nondet or len(other) >= (4 if q else 40):
+                continue
+            oks = [v["json"] for k, v in by_src.get(c["ink"], {}).items() if k.startswith("ok:") and v.get("json")]
+            if len(oks) == 1:
+                mc = {k: v for k, v in strip(c).items() if k != "ink"}
+                mc["story"] = oks[0]
+                mcases.append(mc)
+                other[mc["id"]] = runs[2][1][i]
         if mcases:
             for r in engine.compare(mcases, exe=exe_d, shard=6):
-                model_status[r["status"]] = model_status.get(r["status"], 0) + 1
-                if r["status"] == "agree":
+                st = r["status"]
+                if st == "agree" and r["id"] in other:
+                    cross += 1
+                    il = engine.impl_lines(None, other[r["id"]])
+                    ml = r.get("model_lines") or []
+                    if not (len(il) == len(ml) and all(engine.lines_agree(engine.canon_line(a_), engine.canon_line(b_))
+                                                       for a_, b_ in zip(il, ml))):
+                        st = "mismatch"
+                        k = next((k for k, (a_, b_) in enumerate(zip(il, ml)) if a_ != b_), min(len(il), len(ml)))
+                        r["first_diff"] = dict(line=k, impl_compiled_in_other_process=(il + ["<end>"])[k][:300],
+                                               model_on_first_compile=(ml + ["<end>"])[k][:300])
+                model_status[st] = model_status.get(st, 0) + 1
+                if st == "agree":
                     n_model += 1
-                elif r["status"] == "mismatch":
+                elif st == "mismatch":
                     mism.append(dict(id=r["id"], first_diff=r.get("first_diff")))
     except Exception as e:            # the engine model is another development; report, do not crash
         model_status["error"] = str(e)[-300:]
 
+    feats = {}
+    for x in srcs:
+        for k, v in (x.get("features") or {}).items():
+            feats[k] = max(feats.get(k, 0), v)
     ctx.coverage.update(dict(
-        evaluations=n_eval + n_comp * 4 + n_model, distinct_nontrivial=len(cases) + len(srcs),
+        evaluations=n_eval + n_compiles + n_model, distinct_nontrivial=len(cases) + len(srcs),
         rule="programs over three LIST declarations with equal item values across and inside lists (one order-sensitive "
              "site per output line: LIST_MAX/MIN/VALUE, list printing, LIST_RANDOM, list-from-int, list +- int, "
              "LIST_RANGE, comparisons, LIST_ALL/INVERT, RANDOM, shuffles, 2-25 globals), a multi-flow program with "
-             "switches, generated programs (tools/gen_ink.py) and corpus stories explored to depth 2; each case: 2 runs in "
+             "switches, generated programs (tools/gen_ink.py), declaration-table programs (tools/gen_decls.py) and corpus "
+             "stories explored to depth 2; each case: 2 runs in "
              "one process + 2 fresh debug processes + 2 fresh release processes, transcripts and SHOWSAVE dumps compared; "
-             "every source compiled in 4 fresh processes",
-        samples=[dict(id=cases[0]["id"], ink=cases[0]["ink"][:400], script=cases[0]["script"][:4])],
-        traces_validated_against_impl=n_model, engine_model_status=model_status,
-        runs_per_case=[n for n, _ in runs], compiled_sources=n_comp,
-        nondeterministic_cases=len(nondet)))
+             f"every source (+ corpus sources with INCLUDEs, + programs with a generated CONST DAG in front) compiled "
+             f"2x{reps} times in each of {procs} fresh processes, differing outputs played",
+        samples=[dict(id=cases[0]["id"], ink=cases[0]["ink"][:400], script=cases[0]["script"][:4]),
+                 dict(id=dsrcs[0]["id"], ink=dsrcs[0]["src"][:600], files=list(dsrcs[0]["files"]))],
+        traces_validated_against_impl=n_model, engine_model_status=model_status, model_vs_other_process_compile=cross,
+        runs_per_case=[n for n, _ in runs], compiled_sources=n_comp, compilations=n_compiles,
+        compile_outcomes=outcome_kinds, decl_program_feature_max=feats,
+        compiler_hash_iteration_sites=audit["iterated"], compiler_hash_iteration_sites_new=new_sites,
+        sources_compiled_nondeterministically=len(cfind), nondeterministic_cases=len(nondet)))
 
     for key, payload in findings.items():
         ctx.violation(f"{key}: {json.dumps(payload)[:300]}", payload, key=key)
@@ -247,6 +357,11 @@ def run(ctx):
         elif mism:
             ctx.violation("engine model and implementation transcripts differ: " + json.dumps(mism[0])[:300],
                           dict(mismatches=mism[:10]), key="engine-model-mismatch", no_input=True)
+        for site in new_sites:
+            ctx.violation("the compiler iterates a HashMap/HashSet at a site that is not in the audited list (its output "
+                          "may depend on the iteration order); the differential run found no differing output: " + site,
+                          dict(site=site, audited=sorted(ALLOWED_ITERATION)), key="compiler-hash-iteration-site:" + site,
+                          no_input=True)
 
 
 def replay(ctx, payload):
@@ -262,4 +377,17 @@ def replay(ctx, payload):
             site, diff = site_of(c, outs[0], other)
             ctx.violation(f"replayed: transcripts differ between fresh processes ({site})", dict(case=c, **diff),
                           key="hash-order-dependent-result:" + site)
-    ctx.coverage.update(dict(evaluations=n, distinct_nontrivial=1 if c else 0, obligations=0, discharged=0))
+    if r.get("source"):
+        files = r.get("files") or {}
+        base = detcomp.write_includes(files, "c03_replay") if files else None
+        s = [dict(src=r["source"], files=files, base=base, script=r.get("script") or [], explore=r.get("explore"))]
+        mat = detcomp.matrix(s, compilerun.build(), in_process=16, processes=4)
+        n += sum(v["count"] for v in mat[0].values()) * 2
+        f = detcomp.findings(s, mat, vlib.build_harness())
+        if f:
+            ctx.violation("replayed: the same source compiles to %d different outputs: %s" %
+                          (f[0]["outcomes"], json.dumps(f[0]["played"] or f[0]["bytes"])[:300]),
+                          dict(source=r["source"], files=files, bytes=f[0]["bytes"], played=f[0]["played"]),
+                          key="compiler-output-not-deterministic")
+    ctx.coverage.update(dict(evaluations=n, distinct_nontrivial=1 if (c or r.get("source")) else 0, obligations=0,
+                             discharged=0))
